@@ -169,6 +169,9 @@ class Aggregate(list):
             else:
                 # ListElement
                 # FIXME validation
+                if not self.listelements:
+                    msg = f"{clsnm} can't contain {member!r} as list element"
+                    raise TypeError(msg)
                 if type(member) is not str:
                     msg = (
                         f"{clsnm} can only contain str as list element, "
